@@ -71,7 +71,7 @@ class StepCase:
         sp = self.spec
         out = E.Outcome()
         a_arr, b_arr = env.arr("a", SHAPE), env.arr("b", SHAPE)
-        a, b = Tn(a_arr, requires_grad=True), Tn(b_arr, requires_grad=True)
+        a, b = _leaf(Tn, a_arr, sp.get("computed_leaf")), Tn(b_arr, requires_grad=True)
         nodes = template(sp["template"], a, b)
         root = nodes[sp["root"]][1]
         pre = {}
@@ -115,6 +115,16 @@ class StepCase:
         return _replay_fd(self, cand)
 
 
+def _leaf(Tn, arr, computed):
+    """a leaf either created directly, or computed from tensors that do not require grad and flagged afterwards
+    (it keeps its operands as children but has no backward function: still a leaf)"""
+    if not computed:
+        return Tn(arr, requires_grad=True)
+    t = Tn(arr) * 1.0
+    t.requires_grad = True
+    return t
+
+
 def _reaches(root, t):
     st = [root]
     seen = set()
@@ -146,7 +156,7 @@ class HistCase:
         tm = __import__("vf.common", fromlist=["x"]).tensor_mod()
         out = E.Outcome()
         a_arr, b_arr = env.arr("a", SHAPE), env.arr("b", SHAPE)
-        a = nn.Parameter(Tn(a_arr, requires_grad=True))
+        a = nn.Parameter(_leaf(Tn, a_arr, self.spec.get("computed_leaf")))
         b = nn.Parameter(Tn(b_arr, requires_grad=True))
 
         class M(nn.Module):
@@ -403,6 +413,9 @@ def enumerate_specs(tier, seed=0):
                             continue
                         specs.append({"kind": "step", "template": tmpl, "root": root, "pre_a": pre_a, "pre_b": pre_b,
                                       "pre_nodes": list(pre_nodes), "retain_all": retain_all})
+                        if retain_all == 0 and pre_b == "absent":
+                            specs.append({"kind": "step", "template": tmpl, "root": root, "pre_a": pre_a, "pre_b": pre_b,
+                                          "pre_nodes": list(pre_nodes), "retain_all": retain_all, "computed_leaf": True})
     # (ii) histories
     rng = random.Random(99 + seed)
     maxlen = 4 if tier == "quick" else 5
@@ -417,6 +430,8 @@ def enumerate_specs(tier, seed=0):
                 if n == 4 and rng.random() > 0.12:
                     continue
                 specs.append({"kind": "history", "history": list(h)})
+                if sum(1 for x in h if x[0] == "K") >= 2 and len(specs) % 3 == 0:
+                    specs.append({"kind": "history", "history": list(h), "computed_leaf": True})
     return specs
 
 
@@ -432,7 +447,7 @@ def main(tier, seed):
     results = runner.run_pool(__name__, specs, tier, seed)
     return runner.finish(
         PROP, tier, seed, results, t0,
-        bounds={"leaves": "two leaves of shape (2,)", "templates": "m=a*b, r=m+a | m=exp(a/2), n=m*b, r=sum(n) | q=prev*a, r=q+b (reuse)",
+        bounds={"leaves": "two leaves of shape (2,); leaf a either created directly or computed from non-grad tensors and flagged afterwards", "templates": "m=a*b, r=m+a | m=exp(a/2), n=m*b, r=sum(n) | q=prev*a, r=q+b (reuse)",
                 "inductive step": "every node as root x leaf buffers absent/arbitrary x interior buffers absent/stale/"
                                   "stale+retain_grad x global retain flag",
                 "histories": "build + <= 3 (quick) / 4 (thorough) further actions over %s; length-4/5 tails sampled with "
